@@ -367,6 +367,18 @@ func (w *World) pump(cs *connState) {
 			w.fail(cs, "C04", "field-deref", fmt.Sprintf("%s verdict %d %q: field out of range: %s", kind, err, err, ra.OOB))
 			return
 		}
+		if w.st != nil && w.st.WantObs {
+			// behaviour fingerprint of the run (event-log mode only; selftest/automut classifies
+			// mutants that never change it as equivalent on the workload)
+			h := w.st.Obs
+			mix := func(v uint64) { h = (h ^ v) * 1099511628211 }
+			mix(uint64(ret))
+			mix(uint64(err))
+			for _, v := range ra.V {
+				mix(uint64(v))
+			}
+			w.st.Obs = h
+		}
 		definitive := err != sipsp.ErrHdrMoreBytes
 		// the library keeps to the window of the caller's arrays (C13; after a reset also C12)
 		if w.mon.C13 || w.mon.C12 || w.mon == (Monitors{}) {
